@@ -188,7 +188,7 @@ pub fn run_generic(cx: &mut Ctx, fmt: Fmt) {
         }
     }
     // directed: lengths around the 8-token and 18-byte / 16,17,272,273,4096 boundaries
-    let lens: Vec<usize> = if miri { vec![1, 8, 9, 19, 40] } else { (0..=40).chain([271, 272, 273, 274, 275, 4095, 4096, 4097, 4098, 4113, 4114, 8192, 8210]).collect() };
+    let lens: Vec<usize> = if miri { vec![1, 8, 9, 19, 40] } else { (0..=40).chain([271, 272, 273, 274, 275, 4095, 4096, 4097, 4098, 4099, 4100, 4113, 4114, 8192, 8193, 8194, 8195, 8210, 12289, 12290, 12291, 16385, 16386, 65537, 65538]).collect() };
     for &n in &lens {
         if n == 0 && fmt == Fmt::Lz13 {
             continue;
@@ -199,7 +199,12 @@ pub fn run_generic(cx: &mut Ctx, fmt: Fmt) {
             check_compress(c, fmt, &lzgen::periodic(&[1, 2, 3], n), "periodic(p=3)");
             let ramp: Vec<u8> = (0..n).map(|i| (i % 251) as u8).collect();
             check_compress(c, fmt, &ramp, "ramp(p=251)");
-            c.eval(3);
+            // the same run lengths in 0xFF bytes and after a non-repeating head (repeat length n - k)
+            check_compress(c, fmt, &vec![0xFFu8; n], "run of 0xFF");
+            let mut headed: Vec<u8> = vec![0x12, 0xFF, 0xFF, 0x34, 0x80];
+            headed.extend(std::iter::repeat(0x80u8).take(n));
+            check_compress(c, fmt, &headed, "head + run of 0x80");
+            c.eval(5);
         });
     }
     if !miri {
